@@ -180,6 +180,8 @@ def run(spec, R):
                 members.discard(key)
             else:
                 members.discard(key)
+            if rng.random() < 0.08:
+                members = set()                                # an empty seen-rule set licenses nothing
             S = {(refcat.from_ref(a), refcat.from_ref(b)) for a, b in members}
             try:
                 sg = ser(g.apply_binary_rules(X, Y, S))
@@ -238,6 +240,9 @@ def unary_shard(spec, R, rng, G):
             if lang == 'ja':
                 ks = [k for k in ks if refcat.atoms(k)[0][2] is not None] or [refcat.ref_parse('S[mod=adn,form=base,fin=f]')]
             table = {k: [rng.choice(inv[lang]) for _ in range(rng.randint(1, 4))] for k in ks}
+            if rng.random() < 0.3:
+                k0 = rng.choice(ks)                            # a category may be listed among its own targets
+                table[k0].insert(rng.randrange(len(table[k0]) + 1), k0)
         real = defaultdict(list)
         for k, vs in table.items():
             real[refcat.from_ref(k)] = [refcat.from_ref(v) for v in vs]
